@@ -107,7 +107,7 @@ def durability(ctx, st):
     found = core.validate_traces(ctx, "TraceDur", ["InvDurable"], lines, "dur", chunk=4)
     ctx.stage_log.append({"stage": "durability", "processes": n, "syscalls": tot, "rejections": len(found)})
     for info in found[:1]:
-        rdir = os.path.join(ctx.root, "replays", ctx.prop)
+        rdir = os.path.join(os.environ.get("VERIF_REPLAY_DIR") or os.path.join(ctx.root, "replays"), ctx.prop)
         os.makedirs(rdir, exist_ok=True)
         path = os.path.join(rdir, "durability-seed%d.json" % ctx.seed)
         with open(path, "w") as f:
@@ -388,6 +388,10 @@ PLANS["C07"] = {
         # deterministic schedules on the optimistic store: a bulk update held open (gate in its first callback)
         # while a point update and then a reader run to completion
         {"kind": "lin", "name": "lin-gated", "n": (12, 60), "gated": True, "backends": "badger,badgermem", "chunk": 12, "seed_off": 63},
+        # every behaviour of CloverConc with two goroutines (initial content x pair of operations x order of the
+        # Start / Finish steps), replayed on the real code with gates at the store's Begin and Commit
+        {"kind": "lin", "name": "lin-sched", "n": (400, 1000000), "sched": ["MC_ConcEmit_badger.cfg", "MC_ConcEmit_bolt.cfg"],
+         "chunk": 20, "seed_off": 77},
         {"kind": "race", "name": "race", "n": (24, 600), "maxg": 6},
     ],
 }
@@ -400,3 +404,5 @@ WARM_MC = [LAWS(f) for f in ("values", "criteria", "norm", "paths")] + [MC_PROPS
            MC("conc-badger", "CloverConc", "MC_Conc_badger.cfg", workers=12),
            MC("conc-badger-prerepair", "CloverConc", "MC_Conc_badger_prefix.cfg", workers=12, expect_violation="Linearizable"),
            KV_LAWS, KV_RESERVED, KV_FIXEDLEN]
+WARM_CONC = [{"module": "MC_ConcEmit", "cfg": c, "workers": 8, "heap": "8g", "name": "conc-emit"}
+             for c in ("MC_ConcEmit_badger.cfg", "MC_ConcEmit_bolt.cfg")]
